@@ -381,6 +381,21 @@ func VH_C11_remove_evict() {
 	_, rerr = c.Bugs().ResolveExcerpt(victim)
 	rt.Assert(rerr != nil, "removed-bug-stays-gone-after-merge")
 	vhCoherent(c, w, "-after-merge")
+	// nor does a close and reopen, nor a rebuild from the git data
+	rt.Assert(c.Close() == nil, "close-after-remove")
+	c4, err := NewRepoCacheNoEvents(w.r)
+	rt.Assert(err == nil, "reopen-after-remove")
+	if err == nil {
+		_, rerr = c4.Bugs().ResolveExcerpt(victim)
+		rt.Assert(rerr != nil, "removed-bug-stays-gone-after-reopen")
+		ix, _ := w.r.GetIndex("bugs")
+		_, indexed := ix.(*vrepo.Index).Docs[victim.String()]
+		rt.Assert(!indexed, "removed-bug-not-searchable")
+		vhCoherent(c4, w, "-after-reopen")
+	}
+	rb := vhRebuild(w)
+	_, rerr = rb.Bugs().ResolveExcerpt(victim)
+	rt.Assert(rerr != nil, "removed-bug-stays-gone-after-rebuild")
 	rt.Cover("removed")
 }
 
